@@ -285,4 +285,18 @@ theorem loop_comp : ∀ (ps : List Param) (a b c : PInst) (σ τ ρ : List Arg) 
                 refine ⟨p' :: G, by simp [hG], ?_⟩
                 simpa [instLoop, h3, ← hb, h4] using hA
 
+theorem fillP_full : ∀ (a : PInst) (b : List Arg), fillP a (full b) = (fill a b).map full
+  | [], [] => rfl
+  | [], _ :: _ => rfl
+  | some v :: a, b => by
+    simp only [fillP, fill, fillP_full a b, Option.map_map]
+    cases fill a b <;> rfl
+  | none :: a, [] => rfl
+  | none :: a, x :: b => by
+    simp only [full, List.map_cons, fillP, fill, Option.map_map]
+    have := fillP_full a b
+    simp only [full] at this
+    rw [this]
+    cases fill a b <;> rfl
+
 end GuppyVerif.Instantiate
